@@ -96,97 +96,147 @@ def run(run):
 
     run.guarded("R1", r1)
 
-    def on_returned_state(fn, call):
-        """the receiver of the setter is a local variable that the function returns (not a temporary copy)"""
-        rid = T.var_id(call["a"][0])
-        if rid is None:
-            return False
+    def returned_ids(fn):
         full = S.Sym(F).term(fn["body"])
         outs = [S.value(full)] + [x[1] for x in S.subterms(full) if isinstance(x, tuple) and x and x[0] == "return"]
-        returned = {x[2] for o in outs for x in S.subterms(o) if isinstance(x, tuple) and x and x[0] == "var"}
-        return rid in returned
+        return {x[2] for o in outs for x in S.subterms(o) if isinstance(x, tuple) and x and x[0] == "var"}
 
-    def flagged_slots(fn, adt, scrut_param=None):
-        """{(variant, field): [setter call nodes]} for slots passed directly to a read-flag setter"""
-        out = {}
-        adtdef = F.adt(adt)
-        for v in adtdef["variants"]:
-            for f in v["fields"]:
-                if not SL.is_expression_ty(F.tyi(f["t"])):
-                    continue
-                binds = SL.slot_bindings(F, fn, adt.split("::", 1)[1] if adt.startswith("intermediate_representation::") else adt, v["name"], f["name"], follow=False)
-                ids = {b[0] for b in binds}
-                calls = []
-                for c in T.calls_fn(F, fn):
-                    if c["n"] in READ_SETTERS + (NONTRIVIAL,) and len(c["a"]) >= 2 and T.var_id(c["a"][1]) in ids:
-                        if on_returned_state(fn, c) or fn["name"] == "update_def":
-                            calls.append(c)
-                out[(v["name"], f["name"])] = calls
+    def on_returned_state(fn, call):
+        """the receiver of the setter is a local variable that the function returns (not a temporary copy)"""
+        rid = T.root_var_id(call["a"][0])
+        if rid is None:
+            return False
+        return rid in returned_ids(fn)
+
+    def receiver_returned(top, mf, gp, rid, depth=0):
+        """the receiver local `rid` of group gp is (an alias of) a state that `top` returns: directly, or because gp is a helper
+        whose `&mut` parameter rid is bound to such a state at every call site in the reached functions"""
+        if rid is None or depth > 3:
+            return False
+        if gp == top["path"]:
+            return rid in returned_ids(top)
+        g = F.by_path[gp]
+        idx = None
+        for i, p_ in enumerate(g["params"]):
+            if p_.get("p") and any(b[0] == rid for b in T.pat_bindings(p_["p"])):
+                idx = i
+        if idx is None:
+            return False
+        sites = []
+        for gp2 in list(mf.reached):
+            g2 = F.by_path[gp2]
+            for x in T.walk_fn(F, g2):
+                if x.get("k") == "Call" and (F.by_path.get(x.get("r") or "") is g or F.by_path.get(x.get("f") or "") is g) and len(x.get("a", [])) == len(g["params"]):
+                    sites.append((gp2, x))
+        return bool(sites) and all(receiver_returned(top, mf, gp2, T.root_var_id(x["a"][idx]), depth + 1) for gp2, x in sites)
+
+    def slot_flow(fn, adt, v, f):
+        from .lib import mayflow as MF
+        binds = SL.slot_bindings(F, fn, adt.split("::", 1)[1] if adt.startswith("intermediate_representation::") else adt, v, f, follow=False)
+        mf = MF.MayFlow(F)
+        for b in binds:
+            mf.run(fn, {b[0]})
+        return mf, {b[0] for b in binds}
+
+    def flag_sites(fn, mf):
+        """[(group path, call)] full read-flag setter calls whose expression argument may come from the slot and whose receiver
+        is the state the transfer function returns"""
+        out = []
+        for gp, ids in mf.reached.items():
+            g = F.by_path[gp]
+            for b in mf.bodies(g):
+                for c in T.walk(b["body"]):
+                    if T.is_call(c, READ_SETTERS) and len(c["a"]) >= 2 and mf.mentions(c["a"][1], ids):
+                        out.append((gp, c))
         return out
 
+    def slots_of(adt):
+        adtdef = F.adt(adt)
+        return [(v["name"], f["name"]) for v in adtdef["variants"] for f in v["fields"] if SL.is_expression_ty(F.tyi(f["t"]))]
+
     def r2():
+        from .lib import peval as PE
         fn = F.fn("update_def", mod=CTX)
-        sy = S.Sym(F)
-        env = {}
-        sy.term(fn["body"], env)
-        fl = flagged_slots(fn, "intermediate_representation::def::Def")
-        run.floor("Expression slots of Def", len(fl), 4)
-        ms = T.find_matches(fn["body"], adt_suffix="def::Def")
-        for (v, f), calls in sorted(fl.items()):
+        site = F.loc(fn["body"])
+        def_slots = slots_of("intermediate_representation::def::Def")
+        run.floor("Expression slots of Def", len(def_slots), 4)
+
+        def scenario(variant, slot_ids, isvar=None, exact=None):
+            hits = {"def": 0, "var": 0, "exact": 0}
+
+            def assume(n):
+                k = n.get("k")
+                ty = (F.ty(n) or "").replace("&", "").replace("mut ", "").strip()
+                if ty.endswith("def::Def") and k in ("Field", "Deref", "Borrow", "Call"):
+                    hits["def"] += 1
+                    return ("enum", variant)
+                if exact is not None and k == "Call":
+                    if n.get("n") in ("is_some", "is_none") and n.get("a") and any(T.is_call(y, "get_offset_if_exact_stack_pointer") for y in T.walk(n["a"][0])):
+                        hits["exact"] += 1
+                        return ("bool", exact == (n["n"] == "is_some"))
+                    if n.get("n") == "get_offset_if_exact_stack_pointer":
+                        hits["exact"] += 1
+                        return ("enum", "Some" if exact else "None")
+                if isvar is not None and k in ("Var", "Upvar") and n.get("id") in slot_ids and ty.endswith("expression::Expression"):
+                    hits["var"] += 1
+                    return ("enum", "Var" if isvar else "BinOp")
+                return None
+            nodes = PE.Spec(F, assume=assume, follow_calls=True).reach(fn["body"], {})
+            return nodes, hits
+
+        for (v, f) in sorted(def_slots):
             key = "update_def|Def::%s.%s" % (v, f)
-            site = F.loc(fn["body"])
-            full = [c for c in calls if c["n"] in READ_SETTERS]
-            nontriv = [c for c in calls if c["n"] == NONTRIVIAL]
-            if not calls:
-                run.violated("R2", key, "the input registers of Def::%s.%s are not flagged as read: a parameter register that is only used there is not reported as a parameter" % (v, f), site)
+            mf, ids = slot_flow(fn, "intermediate_representation::def::Def", v, f)
+            if not ids:
+                run.violated("R2", key, "the input registers of Def::%s.%s are not flagged as read (the slot is never bound): a parameter register that is only used there is not reported as a parameter" % (v, f), site)
                 continue
-            # receiver is the state that is returned
-            recv_ok = all(T.show(c["a"][0]).replace("&mut ", "") == "new_state" for c in calls)
-            run.check("R2", key + "|on-returned-state", recv_ok, "the read flag must be set on the state that update_def returns (new_state)", F.loc(calls[0]))
-            # on every path: either an unconditional full setter, or full/nontrivial split on the exact-stack-pointer guard
-            uncond = False
-            for c in full:
-                for n, conds in T.paths_to(fn["body"], lambda y: y is c):
-                    if not [cd for cd in conds if cd[0] == "if"]:
-                        uncond = True
-            if uncond:
-                run.holds("R2", key + "|every-path", "unconditional", F.loc(full[0]))
-            else:
-                ok = False
-                if (v, f) == ("Store", "value") and full and nontriv:
-                    # if exact stack pointer {nontrivial} else {full}
-                    def guard_of(c):
-                        for n, conds in T.paths_to(fn["body"], lambda y: y is c):
-                            ifs = [cd for cd in conds if cd[0] == "if"]
-                            if len(ifs) == 1:
-                                return ifs[0]
-                        return None
-                    g1, g2 = guard_of(full[0]), guard_of(nontriv[0])
-                    if g1 and g2 and g1[1] is g2[1] and g1[2] != g2[2]:
-                        gt = sy.ev(g1[1], env)
-                        is_stack_guard = any(is_call(x, "get_offset_if_exact_stack_pointer") for x in S.subterms(gt))
-                        nontriv_when_stack = (g2[2] is True) == (is_call(gt, "is_some") or gt[0] == "let")
-                        ok = is_stack_guard and nontriv_when_stack
-                run.check("R2", key + "|every-path", ok, "Def::%s.%s must be read-flagged on every path (the only accepted exception: stores of a plain register to an exact stack offset use the non-trivial variant)" % (v, f), F.loc(calls[0]))
-        # order: flag before the defined register is overwritten
-        if ms:
-            for v in ("Assign", "Load"):
-                arms = T.arms_for_variant(ms[0], v)
-                if not arms:
+            sites = flag_sites(fn, mf)
+            if not sites:
+                run.violated("R2", key, "the input registers of Def::%s.%s are not flagged as read (no value derived from the slot reaches %s): a parameter register that is only used there is not reported as a parameter" % (v, f, READ_SETTERS[0]), site)
+                continue
+            good_sites = [(gp, c) for gp, c in sites if receiver_returned(fn, mf, gp, T.root_var_id(c["a"][0]))]
+            run.check("R2", key + "|on-returned-state", bool(good_sites), "the read flag must be set on the state that update_def returns", F.loc(sites[0][1]))
+            site_ids = {id(c) for gp, c in good_sites}
+            # on every path: specialise for the variant (and, for Store.value, for the four cases of the accepted exception)
+            cases = [(None, None)] if (v, f) != ("Store", "value") else [(True, True), (True, False), (False, True), (False, False)]
+            bad, unknown = [], False
+            for isvar, exact in cases:
+                nodes, hits = scenario(v, ids, isvar, exact)
+                if not hits["def"]:
+                    unknown = True
                     continue
-                b = T.peel(arms[0]["b"])
-                stmts = (b.get("ss", []) + ([b["e"]] if "e" in b else [])) if b.get("k") == "Block" else [b]
-                idx_flag = [i for i, s in enumerate(stmts) if any(T.is_call(x, READ_SETTERS) for x in T.walk(s))]
-                idx_set = [i for i, s in enumerate(stmts) if any(T.is_call(x, "set_register") for x in T.walk(s))]
-                run.check("R2", "update_def|%s|flag-before-overwrite" % v, bool(idx_flag) and bool(idx_set) and min(idx_flag) < min(idx_set), "the read flags of Def::%s must be set before the defined register is overwritten in the same state (`x = x + 1` reads the parameter x)" % v, F.loc(arms[0]["b"]))
+                reached = [x for x in nodes if id(x) in site_ids]
+                if not reached and not (isvar and exact):
+                    bad.append({(None, None): "always", (True, False): "a plain register stored to a non-stack address", (False, True): "a computed value stored to an exact stack offset", (False, False): "a computed value stored to a non-stack address"}[(isvar, exact)])
+            if unknown:
+                run.undecided("R2", key + "|every-path", "no dispatch on the kind of definition found in update_def", site)
+            else:
+                run.check("R2", key + "|every-path", not bad, "Def::%s.%s must be read-flagged on every path (the only accepted exception: stores of a plain register to an exact stack offset); not flagged for: %s" % (v, f, bad), F.loc(sites[0][1]))
+        # order: flag before the defined register is overwritten
+        for v in ("Assign", "Load"):
+            slots = [(vv, ff) for (vv, ff) in def_slots if vv == v]
+            ids = set()
+            for (vv, ff) in slots:
+                ids |= slot_flow(fn, "intermediate_representation::def::Def", vv, ff)[1]
+            nodes, hits = scenario(v, ids)
+            idx_flag = [i for i, x in enumerate(nodes) if T.is_call(x, READ_SETTERS)]
+            idx_set = [i for i, x in enumerate(nodes) if T.is_call(x, "set_register")]
+            key = "update_def|%s|flag-before-overwrite" % v
+            if not hits["def"] or not idx_set:
+                run.undecided("R2", key, "the overwrite of the defined register (set_register) was not found for Def::%s" % v, site)
+            else:
+                run.check("R2", key, bool(idx_flag) and min(idx_flag) < min(idx_set), "the read flags of Def::%s must be set before the defined register is overwritten in the same state (`x = x + 1` reads the parameter x)" % v, site)
         # jumps
-        fn = F.fn("update_jump", mod=CTX)
-        fl = flagged_slots(fn, "intermediate_representation::jmp::Jmp")
+        def jump_slot(fname, v, f):
+            g = F.fn(fname, mod=CTX)
+            mf, ids = slot_flow(g, "intermediate_representation::jmp::Jmp", v, f)
+            sites = [(gp, c) for gp, c in flag_sites(g, mf) if receiver_returned(g, mf, gp, T.root_var_id(c["a"][0]))] if ids else []
+            return g, bool(sites)
         for (v, f) in (("BranchInd", "0"), ("Return", "0"), ("CBranch", "condition")):
-            run.check("R2", "update_jump|Jmp::%s.%s" % (v, f), bool(fl.get((v, f))), "the input registers of Jmp::%s.%s are not flagged as read" % (v, f), F.loc(fn["body"]))
-        fn = F.fn("update_call_stub", mod=CTX)
-        fl = flagged_slots(fn, "intermediate_representation::jmp::Jmp")
-        run.check("R2", "update_call_stub|Jmp::CallInd.target", bool(fl.get(("CallInd", "target"))), "the input registers of an indirect call target are not flagged as read", F.loc(fn["body"]))
+            g, ok = jump_slot("update_jump", v, f)
+            run.check("R2", "update_jump|Jmp::%s.%s" % (v, f), ok, "the input registers of Jmp::%s.%s are not flagged as read" % (v, f), F.loc(g["body"]))
+        g, ok = jump_slot("update_call_stub", "CallInd", "target")
+        run.check("R2", "update_call_stub|Jmp::CallInd.target", ok, "the input registers of an indirect call target are not flagged as read", F.loc(g["body"]))
         fn = F.fn("specialize_conditional", mod=CTX)
         cid = None
         for p in fn["params"]:
